@@ -722,7 +722,7 @@ def typedFields (env : Env) : List Field → List Val → Bool
   | _, _ => false
 end
 
-/-! ## values outside the regions of the known JVMS defects (domain of the JVMS-conformance oracles) -/
+/-! ## values outside the region of the known JVMS defect (domain of the JVMS-conformance oracles) -/
 
 mutual
 /-- no node of the value is a variant for which `bad defId variant` holds -/
@@ -749,11 +749,9 @@ def avoidsFields (env : Env) (bad : Nat → Variant → Bool) : List Field → L
   | _, _ => true
 end
 
-/-- the regions of the three known defects: pool entries written with tag 5 or 6 (long, double) in the definition
-`cpId`, attribute variants guarded by the names `NestMembers` and `MethodParameters` -/
+/-- the region of the open defect: pool entries written with tag 5 or 6 (long, double) in the definition `cpId`
+(the NestMembers / MethodParameters defects were repaired in /repo, commits 5d79841 and 94d3d58) -/
 def knownBad (cpId : Nat) (id : Nat) (v : Variant) : Bool :=
-  (id == cpId && (v.tagWrite.e == .lit 5 || v.tagWrite.e == .lit 6)) ||
-  v.guard == some [78, 101, 115, 116, 77, 101, 109, 98, 101, 114, 115] ||
-  v.guard == some [77, 101, 116, 104, 111, 100, 80, 97, 114, 97, 109, 101, 116, 101, 114, 115]
+  id == cpId && (v.tagWrite.e == .lit 5 || v.tagWrite.e == .lit 6)
 
 end RawLayout
